@@ -37,6 +37,15 @@ theories/Model/Reporters.vos theories/Model/Reporters.vok theories/Model/Reporte
 theories/Model/Cli.vo theories/Model/Cli.glob theories/Model/Cli.v.beautified theories/Model/Cli.required_vo: theories/Model/Cli.v theories/Base/Bytes.vo theories/Base/Utf8.vo theories/Base/Num.vo theories/Model/Scanner.vo theories/Model/Parser.vo theories/Model/Elements.vo theories/Model/Resolver.vo theories/Model/Dates.vo theories/Model/Tree.vo theories/Model/Writer.vo theories/Model/Reporters.vo
 theories/Model/Cli.vio: theories/Model/Cli.v theories/Base/Bytes.vio theories/Base/Utf8.vio theories/Base/Num.vio theories/Model/Scanner.vio theories/Model/Parser.vio theories/Model/Elements.vio theories/Model/Resolver.vio theories/Model/Dates.vio theories/Model/Tree.vio theories/Model/Writer.vio theories/Model/Reporters.vio
 theories/Model/Cli.vos theories/Model/Cli.vok theories/Model/Cli.required_vos: theories/Model/Cli.v theories/Base/Bytes.vos theories/Base/Utf8.vos theories/Base/Num.vos theories/Model/Scanner.vos theories/Model/Parser.vos theories/Model/Elements.vos theories/Model/Resolver.vos theories/Model/Dates.vos theories/Model/Tree.vos theories/Model/Writer.vos theories/Model/Reporters.vos
-theories/Model/Driver.vo theories/Model/Driver.glob theories/Model/Driver.v.beautified theories/Model/Driver.required_vo: theories/Model/Driver.v theories/Base/Bytes.vo theories/Base/Utf8.vo theories/Base/Num.vo theories/Base/GoFloat.vo theories/Model/Scanner.vo theories/Model/Parser.vo theories/Model/Elements.vo theories/Model/Resolver.vo theories/Model/Dates.vo theories/Model/Tree.vo theories/Model/Writer.vo theories/Model/Reporters.vo theories/Model/Cli.vo
-theories/Model/Driver.vio: theories/Model/Driver.v theories/Base/Bytes.vio theories/Base/Utf8.vio theories/Base/Num.vio theories/Base/GoFloat.vio theories/Model/Scanner.vio theories/Model/Parser.vio theories/Model/Elements.vio theories/Model/Resolver.vio theories/Model/Dates.vio theories/Model/Tree.vio theories/Model/Writer.vio theories/Model/Reporters.vio theories/Model/Cli.vio
-theories/Model/Driver.vos theories/Model/Driver.vok theories/Model/Driver.required_vos: theories/Model/Driver.v theories/Base/Bytes.vos theories/Base/Utf8.vos theories/Base/Num.vos theories/Base/GoFloat.vos theories/Model/Scanner.vos theories/Model/Parser.vos theories/Model/Elements.vos theories/Model/Resolver.vos theories/Model/Dates.vos theories/Model/Tree.vos theories/Model/Writer.vos theories/Model/Reporters.vos theories/Model/Cli.vos
+theories/Model/Driver.vo theories/Model/Driver.glob theories/Model/Driver.v.beautified theories/Model/Driver.required_vo: theories/Model/Driver.v theories/Base/Bytes.vo theories/Base/Utf8.vo theories/Base/Num.vo theories/Base/GoFloat.vo theories/Model/Scanner.vo theories/Model/Parser.vo theories/Model/Elements.vo theories/Model/Resolver.vo theories/Model/Dates.vo theories/Model/Tree.vo theories/Model/Writer.vo theories/Model/Reporters.vo theories/Model/Cli.vo theories/Model/Syntax.vo theories/Model/Csv.vo theories/Model/Channel.vo
+theories/Model/Driver.vio: theories/Model/Driver.v theories/Base/Bytes.vio theories/Base/Utf8.vio theories/Base/Num.vio theories/Base/GoFloat.vio theories/Model/Scanner.vio theories/Model/Parser.vio theories/Model/Elements.vio theories/Model/Resolver.vio theories/Model/Dates.vio theories/Model/Tree.vio theories/Model/Writer.vio theories/Model/Reporters.vio theories/Model/Cli.vio theories/Model/Syntax.vio theories/Model/Csv.vio theories/Model/Channel.vio
+theories/Model/Driver.vos theories/Model/Driver.vok theories/Model/Driver.required_vos: theories/Model/Driver.v theories/Base/Bytes.vos theories/Base/Utf8.vos theories/Base/Num.vos theories/Base/GoFloat.vos theories/Model/Scanner.vos theories/Model/Parser.vos theories/Model/Elements.vos theories/Model/Resolver.vos theories/Model/Dates.vos theories/Model/Tree.vos theories/Model/Writer.vos theories/Model/Reporters.vos theories/Model/Cli.vos theories/Model/Syntax.vos theories/Model/Csv.vos theories/Model/Channel.vos
+theories/Model/Syntax.vo theories/Model/Syntax.glob theories/Model/Syntax.v.beautified theories/Model/Syntax.required_vo: theories/Model/Syntax.v theories/Base/Bytes.vo theories/Base/Utf8.vo theories/Base/Num.vo theories/Model/Scanner.vo theories/Model/Parser.vo
+theories/Model/Syntax.vio: theories/Model/Syntax.v theories/Base/Bytes.vio theories/Base/Utf8.vio theories/Base/Num.vio theories/Model/Scanner.vio theories/Model/Parser.vio
+theories/Model/Syntax.vos theories/Model/Syntax.vok theories/Model/Syntax.required_vos: theories/Model/Syntax.v theories/Base/Bytes.vos theories/Base/Utf8.vos theories/Base/Num.vos theories/Model/Scanner.vos theories/Model/Parser.vos
+theories/Model/Csv.vo theories/Model/Csv.glob theories/Model/Csv.v.beautified theories/Model/Csv.required_vo: theories/Model/Csv.v theories/Base/Bytes.vo
+theories/Model/Csv.vio: theories/Model/Csv.v theories/Base/Bytes.vio
+theories/Model/Csv.vos theories/Model/Csv.vok theories/Model/Csv.required_vos: theories/Model/Csv.v theories/Base/Bytes.vos
+theories/Model/Channel.vo theories/Model/Channel.glob theories/Model/Channel.v.beautified theories/Model/Channel.required_vo: theories/Model/Channel.v theories/Base/Bytes.vo theories/Base/Num.vo theories/Model/Scanner.vo theories/Model/Parser.vo
+theories/Model/Channel.vio: theories/Model/Channel.v theories/Base/Bytes.vio theories/Base/Num.vio theories/Model/Scanner.vio theories/Model/Parser.vio
+theories/Model/Channel.vos theories/Model/Channel.vok theories/Model/Channel.required_vos: theories/Model/Channel.v theories/Base/Bytes.vos theories/Base/Num.vos theories/Model/Scanner.vos theories/Model/Parser.vos
